@@ -176,6 +176,29 @@ structure Pending where
   proc  : String    -- full name of the process on whose behalf it was made
 deriving DecidableEq, Repr
 
+/-- a timer the emulator armed; fired by the environment -/
+inductive Timer where
+  | invoke (c : Nat)        -- the function timeout of caller c's `Server.Invoke`
+  | rtDeadline | agDeadline | grace   -- shutdown choreography: 30 % runtime deadline, extension deadline, 2 s exit grace
+  | resetTail (from_ : Nat) -- not a real timer: the rest of `Server.Reset` after `HandleReset` returned (see Orch.afterReset)
+  | restoreHook             -- deadline of the restore hook
+deriving DecidableEq, Repr
+
+def Timer.name : Timer → String
+  | .invoke c => s!"invoke:{c}" | .rtDeadline => "rtDeadline" | .agDeadline => "agDeadline" | .grace => "grace"
+  | .resetTail n => s!"resetTail:{n}" | .restoreHook => "restoreHook"
+
+/-- one thing the harness can see. The outcome of a caller of the invoke API is its own constructor, so
+    that statements about outcomes do not depend on the text of the other lines. -/
+inductive Out where
+  | line (s : String)
+  | caller (c : Nat) (err body : String)
+deriving DecidableEq, Repr
+
+def Out.str : Out → String
+  | .line s => s
+  | .caller c err body => s!"caller{c} done err={err} body={body}"
+
 structure State where
   -- configuration
   extFiles : List String := []
@@ -229,11 +252,15 @@ structure State where
   rapidPhaseInvoking : Bool := false
   invokerNil : Bool := true           -- s.invoker == nil
   -- armed timers (names) — fired by the environment
-  timers : List String := []
+  timers : List Timer := []
   -- output of the current op
-  out : List String := []
+  out : List Out := []
 deriving Repr, DecidableEq
 
-def State.emit (s : State) (e : String) : State := { s with out := s.out ++ [e] }
+def State.emit (s : State) (e : String) : State := { s with out := s.out ++ [.line e] }
+/-- the outcome of caller `c`'s `Server.Invoke` call reaches the harness -/
+def State.emitCaller (s : State) (c : Nat) (err body : String) : State := { s with out := s.out ++ [.caller c err body] }
+/-- the output of the current op as the harness prints it -/
+def State.outs (s : State) : List String := s.out.map Out.str
 
 end Rie.Sys
